@@ -117,7 +117,9 @@ func vrAll(alphabet []string, n int) []string {
 }
 
 func TestVerifReplayDissect(t *testing.T) {
-	patterns := []string{"%{a}", "x%{a}", "%{a}-%{b}", "x%{a}--%{b}.", "%{}-%{b}", "%{?s} %{b}:%{c}", "ab%{a}ab%{b}", "%{a}-%{}-%{c}x", "-%{a}", "%{a}x%{b}x%{c}", "é%{a}é", "%{a} - %{b}"}
+	patterns := []string{"%{a}", "x%{a}", "%{a}-%{b}", "x%{a}--%{b}.", "%{}-%{b}", "%{?s} %{b}:%{c}", "ab%{a}ab%{b}", "%{a}-%{}-%{c}x", "-%{a}", "%{a}x%{b}x%{c}", "é%{a}é", "%{a} - %{b}",
+		// skip-only patterns with a leading literal, literal-only patterns, literal after the last token
+		"x%{}", "ab%{?s}:", "x%{}-%{?t}.", "-%{}-%{a}", "ab", "x", "", "%{}", "a%{?n}b%{}x"}
 	lines := vrAll([]string{"a", "b", "x", "-", ".", " ", ":"}, 5)
 	lines = append(lines, "é1é", "xa--b.--c.", "ab1ab2ab3", "A-B", "X1", "ÉÉ")
 	for _, p := range patterns {
